@@ -3,12 +3,12 @@
 set -e
 cd "$(dirname "$0")"
 export GOFLAGS=-mod=mod GOPROXY=off GOSUMDB=off GOTOOLCHAIN=local GOWORK=off
+rm -rf work/setup && mkdir -p work/setup
 python3 - <<'PY'
 import sys; sys.path.insert(0, "lib")
 import vlib
-vlib.ensure_harness_mod()
+vlib.ensure_harness_mod("work/setup/harness")
 PY
-mkdir -p work/setupbin
-(cd harness && go build -tags verif -o ../work/setupbin/ ./cmd/... ) || exit 1
-rm -rf work/setupbin
+(cd work/setup/harness && go build -tags verif -o ../bin/ ./cmd/... ) || exit 1
+rm -rf work/setup
 echo "setup ok"
